@@ -8,6 +8,7 @@ pub mod cones;
 pub mod dd;
 pub mod dense;
 pub mod gen;
+pub mod jet;
 pub mod kkt;
 pub mod problem;
 pub mod report;
